@@ -149,8 +149,12 @@ class Walker:
             self.emit('TryB')
             self.block(s.body)
             for h in s.handlers:
-                self.emit('Handler', _txt(h.type) if h.type else '*')
-                self.block(h.body)
+                # `except (A, B):` = one handler per class, same body
+                types = h.type.elts if isinstance(h.type, ast.Tuple) \
+                    else [h.type]
+                for ty in types:
+                    self.emit('Handler', _txt(ty) if ty is not None else '*')
+                    self.block(h.body)
             if s.orelse:
                 self.emit('TryElse')
                 self.block(s.orelse)
